@@ -217,7 +217,10 @@ def check(case):
                 res.fail(sig_pre + sig, f"{fmt} step {si}: {type(e).__name__}: {e}")
                 break
             for name, got, exp, mag in (('fwd', got_f, exp_fwd, mag_f), ('rev', got_r, exp_rev, mag_r)):
-                tol = 1e-11 * (mag + 1.0)
+                # 1e-11 absolute on the scale of the products, plus 1e-9 relative: the tanh' factors of the generated
+                # components are evaluated at arguments of up to ~1e6 (unit factors such as h -> ms), where the round-off
+                # of the unit conversion itself (1e-16 * 1e6) changes 1 - tanh^2 by ~1e-10 relative
+                tol = 1e-11 * (mag + 1.0) + 1e-9 * np.abs(exp)
                 if got.shape != exp.shape or np.any(np.abs(got - exp) > tol):
                     res.fail(f"{sig_pre}operator:{fmt}-{name}-differs-from-reference",
                              f"{fmt} step {si} cs={in_cs} {name}: got {got.tolist()} expected {exp.tolist()}")
